@@ -65,6 +65,9 @@ CHECKS = {
     "C18": ("exploration", "differential over recorded event streams: shot k of one multi-shot process vs a fresh process seeded identically (guarded per-execution reseeding), plus in-process re-execution of one Program analysed once and twice (ASan)",
             "Every shot of every multi-shot run explored produced the same simulator operations, allocations, echo lines, tracked records, boundary count and error as a fresh single-shot process with the same draws; analysing twice changed nothing.",
             "Reseeding hook gives identical draws; elapsed time and warnings ignored.", "DESIGN.md 3/C18"),
+    "C20": ("exploration", "in-process monitor over the real update_manager.cpp (included into an ASan+UBSan harness) with a virtual clock and scripted network through guarded override slots; reference predicates in Python (big-integer version order, exact checksum field match, sliding-window history checker)",
+            "Over all version pairs of the pool, all generated checksum files and all invocation histories explored: comparison agreed with numeric order, nothing was announced/installed unless both versions parsed and the latest was strictly newer, no version string crashed, the checksum came from the asset's own line, and no two notices fell inside 72 h nor any with checks disabled.",
+            "No real HTTPS/tar/binary replacement (no network); acting = download function called.", "DESIGN.md 3/C20"),
 }
 
 NOT_YET = {}
